@@ -9,8 +9,6 @@ package proxymux
 
 import (
 	"bytes"
-	"encoding/json"
-	"os"
 	"errors"
 	"fmt"
 	"io"
@@ -20,7 +18,6 @@ import (
 	"strings"
 	"testing"
 
-	"verif.local/engine/evidence"
 	"verif.local/engine/explore"
 	"verif.local/engine/vnet"
 	"verif.local/engine/vsched"
@@ -63,8 +60,13 @@ func (p c18Prog) count(o c18Op) int {
 	return n
 }
 
-// c18Programs enumerates every multiset of 1..maxOps operations that is meaningful: at least one
-// Listen; Accept/Close of a protocol only when that protocol is registered by the program.
+// c18Programs enumerates every ORDERED sequence of exactly nOps operations that is meaningful: the
+// first operation is a Listen (performed by the harness main thread right after newMuxListener,
+// as manager.go does), Accept/Close of a protocol appear only after a Listen of that protocol.
+// The remaining operations run as one thread each, spawned in sequence order: the explorer's
+// default schedule executes them in that order (the mux goroutines reacting in between), and
+// every bounded deviation from it is explored, so the sequence enumeration supplies "every
+// order" and the scheduler the interleavings.
 // The programs are split into three families (one scenario each, so that a defect reachable in
 // one family does not cut the exploration of the others short):
 //
@@ -74,43 +76,48 @@ func (p c18Prog) count(o c18Op) int {
 //	"unrouted": not "route", and every connection is an immediate EOF or of a protocol the
 //	            program never registers - dispatch never has a sub-listener to hand it to;
 //	"close":    the rest - connections race with the Close of the sub-listener they route to.
-func c18Programs(maxOps int, family string) []c18Prog {
+func c18Programs(nOps int, family string) []c18Prog {
 	var out []c18Prog
-	var rec func(start c18Op, cur c18Prog)
-	rec = func(start c18Op, cur c18Prog) {
-		if len(cur) > 0 {
+	var rec func(cur c18Prog)
+	rec = func(cur c18Prog) {
+		if len(cur) == nOps {
 			ls, lh := cur.count(c18LS), cur.count(c18LH)
-			ok := ls+lh > 0
-			if ls == 0 && cur.count(c18AS)+cur.count(c18XS) > 0 {
-				ok = false
+			n5, ng, ne := cur.count(c18C5), cur.count(c18CG), cur.count(c18CE)
+			fam := "close"
+			switch {
+			case n5+ng+ne == 0,
+				cur.count(c18XS)+cur.count(c18XH) == 0 && (ls == 0 || cur.count(c18AS) >= n5) && (lh == 0 || cur.count(c18AH) >= ng):
+				fam = "route"
+			case (n5 == 0 || ls == 0) && (ng == 0 || lh == 0):
+				fam = "unrouted"
 			}
-			if lh == 0 && cur.count(c18AH)+cur.count(c18XH) > 0 {
-				ok = false
+			if fam == family {
+				out = append(out, append(c18Prog(nil), cur...))
 			}
-			if ok {
-				n5, ng, ne := cur.count(c18C5), cur.count(c18CG), cur.count(c18CE)
-				fam := "close"
-				switch {
-				case n5+ng+ne == 0,
-					cur.count(c18XS)+cur.count(c18XH) == 0 && (ls == 0 || cur.count(c18AS) >= n5) && (lh == 0 || cur.count(c18AH) >= ng):
-					fam = "route"
-				case (n5 == 0 || ls == 0) && (ng == 0 || lh == 0):
-					fam = "unrouted"
-				}
-				if fam == family {
-					out = append(out, append(c18Prog(nil), cur...))
-				}
-			}
-		}
-		if len(cur) == maxOps {
 			return
 		}
-		for o := start; o < c18NOps; o++ {
-			rec(o, append(cur, o))
+		for o := c18Op(0); o < c18NOps; o++ {
+			switch {
+			case len(cur) == 0 && o != c18LS && o != c18LH:
+				continue
+			case (o == c18AS || o == c18XS) && cur.count(c18LS) == 0:
+				continue
+			case (o == c18AH || o == c18XH) && cur.count(c18LH) == 0:
+				continue
+			}
+			rec(append(cur, o))
 		}
 	}
-	rec(0, nil)
-	sort.SliceStable(out, func(i, j int) bool { return len(out[i]) < len(out[j]) })
+	rec(nil)
+	return out
+}
+
+// c18ProgramsUpTo: every program of 1..maxOps operations of the family, shortest first.
+func c18ProgramsUpTo(maxOps int, family string) []c18Prog {
+	var out []c18Prog
+	for n := 1; n <= maxOps; n++ {
+		out = append(out, c18Programs(n, family)...)
+	}
 	return out
 }
 
@@ -316,7 +323,8 @@ func c18MuxBody(progs []c18Prog) func(e *vsched.Exec) {
 		m := &c18Mux{e: e, base: vnet.NewListener("base")}
 		m.pendingL = [2]int{prog.count(c18LS), prog.count(c18LH)}
 		m.ml = newMuxListener(m.base, func() { m.deleted++ })
-		for _, op := range prog {
+		m.run(prog[0]) // the Listen that made the manager create the mux
+		for _, op := range prog[1:] {
 			op := op
 			vsched.GoNamed(c18OpNames[op], func() { m.run(op) })
 		}
@@ -390,39 +398,22 @@ func c18Sig(o *vsched.Outcome) string {
 	return o.Kind + ":" + o.Detail
 }
 
-func c18MuxScenarios(thorough bool) []*explore.Scenario {
-	nRoute, nClose := 4, 3
-	if thorough {
-		nRoute, nClose = 5, 4
-	}
-	mk := func(name string, progs []c18Prog) *explore.Scenario {
-		return &explore.Scenario{Name: name, Quick: explore.Bounds{P: 2}, Thorough: explore.Bounds{P: 3}, Body: c18MuxBody(progs), Sig: c18Sig}
-	}
-	if os.Getenv("C18_EXPERIMENT") != "" {
-		sc := mk("mux-x", []c18Prog{{c18LS, c18C5, c18XS, c18LS}, {c18LS, c18C5, c18XS, c18LS, c18AS}})
-		sc.Quick.P = 3
-		return []*explore.Scenario{sc}
+// Bounds: programs of <=4 operations with P<=2 (quick) / P<=3 (thorough) scheduling deviations,
+// programs of exactly 5 operations with P<=1 (quick) / P<=2 (thorough).
+func c18MuxScenarios(_ bool) []*explore.Scenario {
+	mk := func(name string, progs []c18Prog, pq, pt int) *explore.Scenario {
+		return &explore.Scenario{Name: name, Quick: explore.Bounds{P: pq}, Thorough: explore.Bounds{P: pt}, Body: c18MuxBody(progs), Sig: c18Sig}
 	}
 	return []*explore.Scenario{
-		mk("mux-route", c18Programs(nRoute, "route")),
-		mk("mux-unrouted", c18Programs(nClose, "unrouted")),
-		mk("mux", c18Programs(nClose, "close")),
+		mk("mux-route", c18ProgramsUpTo(4, "route"), 2, 3),
+		mk("mux-unrouted", c18ProgramsUpTo(4, "unrouted"), 2, 3),
+		mk("mux", c18ProgramsUpTo(4, "close"), 2, 3),
+		mk("mux-route5", c18Programs(5, "route"), 1, 2),
+		mk("mux-unrouted5", c18Programs(5, "unrouted"), 1, 2),
+		mk("mux5", c18Programs(5, "close"), 1, 2),
 	}
 }
 
 func TestVerifC18Mux(t *testing.T) {
-	env := evidence.GetEnv("C18")
-	thorough := env.Thorough()
-	if env.Replay != "" {
-		// the program list depends on the tier the violation was found in
-		if b, err := os.ReadFile(env.Replay); err == nil {
-			var doc struct {
-				Tier string `json:"tier"`
-			}
-			if json.Unmarshal(b, &doc) == nil && doc.Tier != "" {
-				thorough = doc.Tier == "thorough"
-			}
-		}
-	}
-	explore.Main(t, "C18", c18MuxScenarios(thorough))
+	explore.Main(t, "C18", c18MuxScenarios(false))
 }
